@@ -157,6 +157,41 @@ def ctx_setitem_ml(v):
     return src.rebuild(), (lambda r: r["k"])
 
 
+def ctx_setitem_over_one(v):
+    """item assignment over an existing binding whose value is 1 (== True == 1.0 in Python)"""
+    from nix_manipulator import parse
+
+    src = parse("{ k = 1; j = 0; }")
+    src["k"] = v
+    return src.rebuild(), (lambda r: r["k"])
+
+
+def ctx_setitem_over_zero(v):
+    from nix_manipulator import parse
+
+    src = parse("{ j = 1; k = 0; }")
+    src["k"] = v
+    return src.rebuild(), (lambda r: r["k"])
+
+
+def ctx_setitem_over_list(v):
+    from nix_manipulator import parse
+
+    src = parse("{ k = [ 1 0 ]; }")
+    src["k"] = v
+    return src.rebuild(), (lambda r: r["k"])
+
+
+def ctx_setitem_twice(v):
+    """the same key assigned twice: first a neighbour value, then v"""
+    from nix_manipulator import parse
+
+    src = parse("{ }")
+    src["k"] = {"a": 1}
+    src["k"] = v
+    return src.rebuild(), (lambda r: r["k"])
+
+
 def ctx_scope(v):
     from nix_manipulator import parse
 
@@ -165,7 +200,7 @@ def ctx_scope(v):
     return src.rebuild(), (lambda r: r["k"])
 
 
-CONTEXTS = {"from_dict": ctx_from_dict, "set_ctor": ctx_set_ctor, "binding": ctx_binding, "list": ctx_list, "list3": ctx_list2, "setitem": ctx_setitem, "setitem_ml": ctx_setitem_ml, "scope": ctx_scope}
+CONTEXTS = {"from_dict": ctx_from_dict, "set_ctor": ctx_set_ctor, "binding": ctx_binding, "list": ctx_list, "list3": ctx_list2, "setitem": ctx_setitem, "setitem_ml": ctx_setitem_ml, "scope": ctx_scope, "setitem_over_1": ctx_setitem_over_one, "setitem_over_0": ctx_setitem_over_zero, "setitem_over_list": ctx_setitem_over_list, "setitem_twice": ctx_setitem_twice}
 LIST_CONTEXTS = ("list", "list3")
 
 
@@ -272,7 +307,7 @@ def values(tier):
     strs = [s for s in strs if "${" not in s]
     S = strs + INTS + CONSTS + FLOATS
     rep = REP if tier == "quick" else REP + [0.0, -0.0, 5e-324, 1e22, "\r", "\x7f", "é"]
-    out = list(S)
+    out = list(S) + [1.0, [1, 0], [True, False], [1.0, 0.0], {"a": 1}, {"a": True}, {"a": 1.0}]
     out += [[s] for s in S]
     out += [[a, b] for a in rep for b in rep]
     out += [[[s]] for s in rep] + [[a, [b]] for a in rep for b in rep] + [[a, b, c] for a in rep[:6] for b in rep[6:10] for c in rep[10:]]
@@ -301,7 +336,7 @@ def run(prop: str, tier: str) -> core.Report:
     cov = {
         "evaluations": n,
         "distinct_nontrivial": len(items),
-        "rule": f"{len(vals)} nested Python values (scalar alphabet of {len(S)}: all strings of length <= {2 if tier=='quick' else 3} over {STR_CH!r} without '${{', ints {INTS}, bools/None, floats {FLOATS}; lists and dicts to nesting 3, products over a representative scalar subset) x {len(CONTEXTS)} construction contexts; each (context, value) pair is distinct and non-trivial",
+        "rule": f"{len(vals)} nested Python values (incl. 1/True/1.0, 0/False/0.0, [1, 0]/[True, False], {{a: 1}}/{{a: True}} collisions under Python equality) (scalar alphabet of {len(S)}: all strings of length <= {2 if tier=='quick' else 3} over {STR_CH!r} without '${{', ints {INTS}, bools/None, floats {FLOATS}; lists and dicts to nesting 3, products over a representative scalar subset) x {len(CONTEXTS)} construction contexts; each (context, value) pair is distinct and non-trivial",
         "samples": [repr(x) for x in core.pick_samples(items, 6)],
         "exhaustive": True,
         "values": len(vals),
